@@ -16,6 +16,7 @@ import ast, copy, inspect, textwrap, itertools, time, types
 import z3
 
 U = z3.DeclareSort("U")
+BLANK_HASH_BYTES = bytes.fromhex("c5d2460186f7233c927e7db2dcc703c0e500b653ca82273b7bfad8045d85a470")
 INTERP_MODULES = {"trie", "hsmt"}
 
 
@@ -130,6 +131,7 @@ class Engine:
             for o in self.const_atoms.values():
                 self.solver.add(t != o)
             self.const_atoms[b] = t
+            if b == BLANK_HASH_BYTES: self.solver.add(self.tagfn()(t) == -1)
         return self.const_atoms[b]
 
     def chunk_term(self, c):
@@ -137,8 +139,29 @@ class Engine:
         if c[0] == "a": return c[2]
         raise Unsupported("hash of bit-vector chunk")
 
+    def lift_bv(self, n, t):
+        if not hasattr(self, "_lift"): self._lift = {}
+        if n not in self._lift:
+            self._lift[n] = (z3.Function(f"lift{n}", z3.BitVecSort(8 * n), U), z3.Function(f"unlift{n}", U, z3.BitVecSort(8 * n)))
+        f, g = self._lift[n]
+        r = f(t); self.solver.add(g(r) == t); return r
+
+    def canon(self, sb):
+        out, run = [], []
+        def flush():
+            if run:
+                n = sum(x[0] for x in run)
+                t = run[0][1] if len(run) == 1 else z3.Concat(*[x[1] for x in run])
+                out.append(("a", n, self.lift_bv(n, z3.simplify(t)))); run.clear()
+        for c in sb.ch:
+            if c[0] == "a": flush(); out.append(c)
+            elif c[0] == "c": run.append((len(c[1]), z3.BitVecVal(int.from_bytes(c[1], "big"), 8 * len(c[1]))))
+            else: run.append((c[1], c[2]))
+        flush()
+        r = SBytes.__new__(SBytes); r.ch = tuple(out); return r
+
     def keccak(self, data):
-        sb = as_sbytes(data)
+        sb = self.canon(as_sbytes(data))
         shape = tuple(l for (_, l) in sb.shape())
         if shape not in self.hfuns:
             k = len(shape)
@@ -194,6 +217,7 @@ class Engine:
 
     def decide(self, alternatives):
         """alternatives: list of z3 conds (mutually exclusive). returns chosen index."""
+        if getattr(self, "attempt", 0): raise NeedFork()     # no fork decisions inside a merge attempt
         if self.pos < len(self.log):
             i = self.log[self.pos]
         else:
@@ -307,7 +331,12 @@ class Engine:
             out = []
             for x, y in zip(a2.ch, b2.ch):
                 if x[0] == "c" and y[0] == "c" and x[1] == y[1]: out.append(x)
-                elif x[0] == "bv" or y[0] == "bv": raise NeedFork()
+                elif x[0] == "bv" or y[0] == "bv" or (x[0] == "c" and y[0] == "c"):
+                    if x[0] == "a" or y[0] == "a": raise NeedFork()
+                    n = len(x[1]) if x[0] == "c" else x[1]
+                    tx = x[2] if x[0] == "bv" else z3.BitVecVal(int.from_bytes(x[1], "big"), 8 * n)
+                    ty = y[2] if y[0] == "bv" else z3.BitVecVal(int.from_bytes(y[1], "big"), 8 * n)
+                    out.append(("bv", n, z3.If(c, tx, ty)))
                 else:
                     n = len(x[1]) if x[0] == "c" else x[1]
                     out.append(("a", n, z3.If(c, self.chunk_term(x), self.chunk_term(y))))
@@ -500,10 +529,13 @@ class Interp:
         try:
             for fr, body in ((fa, s.body), (fb, s.orelse)):
                 self.frames = fr
+                self.e.attempt = getattr(self.e, "attempt", 0) + 1
                 try:
                     self.block(body)
                 except (Ret, Brk, Cont, Raised, Infeasible):
                     raise NeedFork()
+                finally:
+                    self.e.attempt -= 1
                 if self.e.pos != pos0: raise NeedFork()      # a fork decision inside an arm: do not merge
             targets = {(id(ma[i][1]), id(mb[i][1])): ma[i][0] for i in ma if i in mb}
             self.frames = saved
@@ -710,7 +742,15 @@ class Interp:
         idx = self.ev(n.slice)
         if isinstance(obj, SMap): return self.smap_get(obj, idx)
         if isinstance(obj, (SBytes, bytes)) and isinstance(idx, int):
-            return self.iterate(as_sbytes(obj))[idx]
+            sb = as_sbytes(obj); n = len(sb); i = idx + n if idx < 0 else idx; pos = 0
+            if not 0 <= i < n: raise Raised(IndexError("index out of range"))
+            for c in sb.ch:
+                m = len(c[1]) if c[0] == "c" else c[1]
+                if pos <= i < pos + m:
+                    if c[0] == "c": return c[1][i - pos]
+                    if c[0] == "bv": return SInt(z3.Extract(8 * (pos + m - i) - 1, 8 * (pos + m - i - 1), c[2]), 8)
+                    raise Unsupported("index into atom bytes")
+                pos += m
         if isinstance(obj, dict) and has_sym(idx): return self.table_get(obj, idx)
         if isinstance(obj, (tuple, PList, list)):
             if not isinstance(idx, int): raise Unsupported("symbolic sequence index")
@@ -756,7 +796,7 @@ class Interp:
             r = self.e.bytes_eq(k, key)
             eqs.append(z3.BoolVal(r) if isinstance(r, bool) else r.t)
         def shape_of(v): return as_sbytes(v).shape() if isinstance(v, (SBytes, bytes)) else ("obj", id(v))
-        def lenclass(v): return len(as_sbytes(v)) if isinstance(v, (SBytes, bytes)) else -1
+        def lenclass(v): return as_sbytes(v).shape() if isinstance(v, (SBytes, bytes)) else -1
         classes = {}
         for i, (k, v) in enumerate(ents): classes.setdefault(lenclass(v), []).append(i)
         alts, keys = [], []
@@ -873,6 +913,6 @@ import itertools as _it, eth_utils as _eu
 from eth_utils.toolz import partition as _part, partition_all as _partall
 DECORATOR_CONVERTERS = {_eu.to_tuple: tuple, _eu.to_list: list}
 
-BUILTINS = {bytes: b_bytes, sum: b_sum, any: b_any, all: b_all, enumerate: b_enumerate, zip: b_zip, _it.chain: b_chain,
+BUILTINS = {min: lambda ip, *a: min(*a), max: lambda ip, *a: max(*a), bytes: b_bytes, sum: b_sum, any: b_any, all: b_all, enumerate: b_enumerate, zip: b_zip, _it.chain: b_chain,
             _part: b_partition, _partall: b_partition_all, len: b_len, isinstance: b_isinstance, reversed: b_reversed, range: b_range,
             tuple: lambda ip, x=(): ip.builtin_seq(tuple, x), list: lambda ip, x=(): ip.builtin_seq(list, x)}
